@@ -40,6 +40,8 @@ func checkKey(k value) {
 		panic(engineError{"symbolic map key (not supported; case-split in the harness)"})
 	case *sstr:
 		panic(engineError{"structural symbolic string used as map key"})
+	case symstr:
+		panic(engineError{"symbolic string used as map key"})
 	}
 	if f, ok := k.(iface); ok {
 		checkKey(f.v)
